@@ -2,13 +2,12 @@
    assembled from the per-operation theorems, plus corollaries. *)
 From Coq Require Import List ZArith Bool Arith Lia Permutation.
 From NT Require Import Sx Rose ListFacts RoseFacts Surgery SurgeryFacts Machine WF MachineFacts
-  PreserveSteps PreserveOps PreserveSort PreserveCopy PreserveMore.
+  PreserveSteps PreserveOps PreserveSort PreserveCopy PreserveMore PreserveRelabel.
 Import ListNotations.
 
 (* operations whose preservation proof is closed *)
 Definition covered (o : op) : bool :=
   match o with
-  | OSetData _ _ _ _ _ | ORename _ _ _ => false
   | ORemove _ _ keep wc => negb (keep && wc)
   | _ => true
   end.
@@ -27,6 +26,8 @@ Proof.
   - apply WFw_op_remove; [assumption|]. cbn [covered] in C. now apply negb_true_iff in C.
   - now apply WFw_op_remove_children.
   - now apply WFw_op_sort.
+  - now apply WFw_op_set_data.
+  - now apply WFw_op_rename.
   - now apply WFw_op_meta.
   - now apply (WFw_new_tree w is_typed c).
   - now apply WFw_op_clear.
